@@ -196,7 +196,7 @@ func (r *consRunner) mkEvent(n, epoch uint64, kv map[string]string, frame uint64
 	for _, p := range SplitList(kv["p"]) {
 		pe, ok := r.events[Atou(p)]
 		if !ok {
-			panic("unknown parent " + p)
+			return nil
 		}
 		ps = append(ps, pe.ID())
 	}
@@ -225,6 +225,16 @@ func kvOf(ws []string) map[string]string {
 func (r *consRunner) Step(line string) string {
 	f := Fields(line)
 	switch f[0] {
+	case "restart", "reset", "build", "process", "fc", "hb", "roots", "state":
+		if len(f) < 2 || r.insts[Atou(f[1])] == nil {
+			return "noinst"
+		}
+	case "inst":
+		if r.genesis == nil {
+			return "novals"
+		}
+	}
+	switch f[0] {
 	case "vals":
 		r.genesis = parseVals(f[1:])
 		return "ok"
@@ -252,6 +262,9 @@ func (r *consRunner) Step(line string) string {
 		n := Atou(f[1])
 		kv := kvOf(f[2:])
 		e := r.mkEvent(n, Atou(kv["e"]), kv, Atou(kv["f"]))
+		if e == nil {
+			return "err unknown-parent"
+		}
 		be := e.Build(tailOf(n))
 		r.events[n] = be
 		r.byHash[be.ID()] = n
@@ -261,6 +274,14 @@ func (r *consRunner) Step(line string) string {
 		n := Atou(f[2])
 		kv := kvOf(f[3:])
 		e := r.mkEvent(n, uint64(in.store.GetEpoch()), kv, 0)
+		if e == nil {
+			return "err unknown-parent"
+		}
+		for _, p := range e.Parents() {
+			if !in.input.HasEvent(p) {
+				return "err noparent"
+			}
+		}
 		if err := in.lch.Build(e); err != nil {
 			return "err " + err.Error()
 		}
@@ -278,6 +299,11 @@ func (r *consRunner) Step(line string) string {
 		}
 		if e.Epoch() != in.store.GetEpoch() {
 			return "skip " + in.stateStr()
+		}
+		for _, p := range e.Parents() {
+			if !in.input.HasEvent(p) {
+				return "err noparent " + in.stateStr()
+			}
 		}
 		in.blocks = nil
 		in.input.m[e.ID()] = e
